@@ -194,7 +194,7 @@ def closure(prop):
             continue
         seen.append(m)
         text = strip_coq_comments(open(p).read())
-        for req in re.finditer(r"From\s+KV\s+Require\s+(?:Import|Export)?\s*([^.]*(?:\.[A-Za-z_][^.\s]*)*)\.\s", text):
+        for req in re.finditer(r"From\s+KV\s+Require\s+(?:Import\s+|Export\s+)?(.*?)\.(?=\s)", text, re.S):
             for name in req.group(1).split():
                 todo.append(name)
     return seen
